@@ -7,6 +7,21 @@
  * replaced; current content with the overlapped part of one register replaced
  * by each of its boundary / undecodable values).  Oracle: flat address-space
  * model (regtab.h).
+ *
+ * Added dimensions (own to this harness):
+ *   X  extended table family: s32 / s64 / f64 registers (every placement, every
+ *      constraint kind incl. none and always-fail) in a one-area and a 4+4
+ *      two-area layout, pairs that put such a register next to another one,
+ *      and areas that carry REG_AF_SKIP_DEFAULTS besides their access flags.
+ *   H  histories: the table object (RegisterTable, area and entry arrays) is
+ *      put back to its image right after initialisation, the storage image is
+ *      established, ONE earlier operation of a per-table alphabet is run
+ *      (sanitise on clean / corrupted storage, refused and accepted typed set,
+ *      refused and accepted block writes, bit operations, block read, re-initialisation,
+ *      and -- on callback-backed areas -- each of those operations with one
+ *      area callback answering IO_ERROR), and then the block write is decided
+ *      against the flat model evaluated on the storage as that operation left
+ *      it.  The result of the earlier operation is not judged.
  */
 #include "mc.h"
 #include "regfam.h"
@@ -22,6 +37,22 @@ acc(RegisterAccessCode c)
 {
     static const char *n[] = { "SUCCESS", "FAILURE", "UNINITIALISED", "NOENTRY", "RANGE", "INVALID", "READONLY", "IO_ERROR" };
     return (unsigned)c < 8 ? n[c] : "?";
+}
+
+static uint64_t
+f32bits(float f)
+{
+    uint32_t x;
+    memcpy(&x, &f, 4);
+    return x;
+}
+
+static uint64_t
+f64bits(double d)
+{
+    uint64_t x;
+    memcpy(&x, &d, 8);
+    return x;
 }
 
 /* target raw patterns for register r (P3) */
@@ -42,6 +73,22 @@ targets(const struct rspec *r, uint64_t out[16])
         out[n++] = 0x00000000; out[n++] = 0x80000000; out[n++] = 0x7fc00000; out[n++] = 0x7f800000;
         out[n++] = 0xff800000; out[n++] = 0x00000001; out[n++] = 0x807fffff; out[n++] = 0x3fc00000;
         out[n++] = 0xbfc00000; out[n++] = 0x7f7fffff;
+    } else if (t == REG_TYPE_FLOAT64) {
+        const double lo = r->lo.f64, hi = r->hi.f64;
+        out[n++] = f64bits(lo);
+        out[n++] = f64bits(nextafter(lo, -INFINITY));
+        out[n++] = f64bits(hi);
+        out[n++] = f64bits(nextafter(hi, INFINITY));
+        out[n++] = 0x0000000000000000ull; out[n++] = 0x8000000000000000ull;
+        out[n++] = 0x7ff8000000000000ull; /* quiet NaN */
+        out[n++] = 0x7ff0000000000000ull; /* +inf */
+        out[n++] = 0xfff0000000000000ull; /* -inf */
+        out[n++] = 0x0000000000000001ull; /* smallest subnormal */
+        out[n++] = 0x800fffffffffffffull; /* largest negative subnormal */
+        out[n++] = 0x7ff0000000000001ull; /* signalling NaN, payload in the lowest word only */
+        out[n++] = f64bits(1.5); out[n++] = f64bits(-1.5);
+        out[n++] = 0x7fefffffffffffffull; /* largest normal */
+        out[n++] = 0x0010000000000000ull; /* smallest normal */
     } else {
         const uint64_t lo = ref_bits(t, r->lo), hi = ref_bits(t, r->hi);
         out[n++] = (lo - 1) & m; out[n++] = lo; out[n++] = (lo + 1) & m;
@@ -49,6 +96,480 @@ targets(const struct rspec *r, uint64_t out[16])
         out[n++] = 0; out[n++] = 1; out[n++] = 2; out[n++] = m; out[n++] = m >> 1; out[n++] = (m >> 1) + 1;
     }
     return n;
+}
+
+/* ---- X: extended family ------------------------------------------------------------ */
+
+static bool
+x_is_ext(RegisterType t)
+{
+    return t == REG_TYPE_SINT32 || t == REG_TYPE_SINT64 || t == REG_TYPE_FLOAT64;
+}
+
+/* constraint bounds for the types regfam.h has no bounds for; the types it
+ * knows are delegated to it */
+static void
+x_constrain(struct rspec *r, int ckind)
+{
+    const RegisterType t = r->type;
+    if (!x_is_ext(t)) {
+        fam_constrain(r, ckind);
+        return;
+    }
+    r->ckind = ckind;
+    r->lo = r->hi = r->def = vu_zero();
+    if (t == REG_TYPE_SINT32) {
+        r->lo = vu_int(t, -0x00018001ll); /* fffe7fff */
+        r->hi = vu_int(t, 0x00028001ll);
+    } else if (t == REG_TYPE_SINT64) {
+        r->lo = vu_int(t, -0x0000000100020003ll);
+        r->hi = vu_int(t, 0x0000000180028003ll);
+    } else {
+        r->lo.f64 = -2.5;
+        r->hi.f64 = 1000.25;
+    }
+    switch (ckind) {
+    case K_MIN: r->def = r->hi; break;
+    case K_MAX: case K_RANGE: r->def = r->lo; break;
+    default: /* none, fail, callback (integers: low bit clear; floats: not negative) */
+        if (t == REG_TYPE_FLOAT64)
+            r->def = r->hi;
+        else
+            r->def = vu_int(t, 0x1234);
+        break;
+    }
+}
+
+/* valid contents of a register (images); regfam.h's list for the types it knows */
+static int
+x_contents(const struct rspec *r, uint64_t out[3])
+{
+    const RegisterType t = r->type;
+    if (!x_is_ext(t))
+        return fam_contents(r, out);
+    int n = 0;
+    out[n++] = ref_bits(t, r->def);
+    switch (r->ckind) {
+    case K_NONE: out[n++] = t == REG_TYPE_FLOAT64 ? f64bits(-123.0) : t == REG_TYPE_SINT32 ? 0x87654321ull : 0xfedcba9876543210ull; break;
+    case K_MIN: out[n++] = ref_bits(t, r->lo); break;
+    case K_MAX: case K_RANGE: out[n++] = ref_bits(t, r->hi); break;
+    case K_CB: out[n++] = t == REG_TYPE_FLOAT64 ? f64bits(1.5) : 0x7ffe; break;
+    default: break;
+    }
+    return n;
+}
+
+static const struct layout XLAYOUTS[] = {
+    { 1, { 1 }, { 6 } },       /* A: one area 1..6 */
+    { 2, { 1, 5 }, { 4, 4 } }, /* E: two adjacent areas of four words, 1..4 and 5..8 */
+};
+
+static const RegisterType X_TYPES[] = { REG_TYPE_SINT32, REG_TYPE_SINT64, REG_TYPE_FLOAT64 };
+static const RegisterType X_PAIR_TYPES[] = { REG_TYPE_UINT16, REG_TYPE_UINT32, REG_TYPE_SINT32, REG_TYPE_SINT64, REG_TYPE_FLOAT64, REG_TYPE_FLOAT32 };
+
+static int
+xfam_enumerate(fam_fn fn, int idx)
+{
+    struct tspec s;
+    static const int RW3[3] = { 0, 0, 0 };
+    fam_shift = 0;
+    /* X1: singles of the extended types */
+    for (int li = 0; li < 2; ++li) {
+        const struct layout *l = &XLAYOUTS[li];
+        for (int combo = 0; combo < 2; ++combo) /* (mem, LE) | (cb, BE) */
+            for (unsigned ti = 0; ti < 3; ++ti)
+                for (uint32_t a = 1; a <= 8; ++a) {
+                    if (!fam_fits(l, X_TYPES[ti], a))
+                        continue;
+                    for (int ck = 0; ck < K_NKINDS; ++ck) {
+                        memset(&s, 0, sizeof s);
+                        s.be = combo == 1;
+                        fam_areas(&s, l, RW3, combo);
+                        s.nr = 1;
+                        s.r[0].type = X_TYPES[ti];
+                        s.r[0].addr = a;
+                        x_constrain(&s.r[0], ck);
+                        fn(&s, idx++);
+                    }
+                }
+    }
+    /* X2: directly adjacent ordered pairs with at least one extended type; the
+     * constraint kinds rotate through all 36 combinations */
+    int rot = 0;
+    for (int li = 0; li < 2; ++li) {
+        const struct layout *l = &XLAYOUTS[li];
+        for (unsigned t1 = 0; t1 < 6; ++t1)
+            for (unsigned t2 = 0; t2 < 6; ++t2) {
+                if (!x_is_ext(X_PAIR_TYPES[t1]) && !x_is_ext(X_PAIR_TYPES[t2]))
+                    continue;
+                for (uint32_t a1 = 1; a1 <= 8; ++a1) {
+                    const uint32_t a2 = a1 + ref_words(X_PAIR_TYPES[t1]);
+                    if (!fam_fits(l, X_PAIR_TYPES[t1], a1) || !fam_fits(l, X_PAIR_TYPES[t2], a2))
+                        continue;
+                    memset(&s, 0, sizeof s);
+                    s.be = (rot & 1);
+                    fam_areas(&s, l, RW3, (rot >> 1) & 1);
+                    s.nr = 2;
+                    s.r[0].type = X_PAIR_TYPES[t1];
+                    s.r[0].addr = a1;
+                    x_constrain(&s.r[0], rot % 6);
+                    s.r[1].type = X_PAIR_TYPES[t2];
+                    s.r[1].addr = a2;
+                    x_constrain(&s.r[1], (rot / 6 + rot) % 6);
+                    rot++;
+                    fn(&s, idx++);
+                }
+            }
+    }
+    /* X3: REG_AF_SKIP_DEFAULTS besides the access flags: layout B of regfam.h
+     * (1..3, 4..6), each area one of {RW, RW+S, W, W+S}, both backings, a
+     * 32-bit register at the start / at the end of each area */
+    static const uint16_t XFLAGS[4] = { REG_AF_RW, REG_AF_RW | REG_AF_SKIP_DEFAULTS, REG_AF_WRITEABLE, REG_AF_WRITEABLE | REG_AF_SKIP_DEFAULTS };
+    const struct layout *lb = &LAYOUTS[1];
+    for (int c = 1; c < 16; ++c) {
+        if (!((c & 1) || (c & 4)))
+            continue; /* at least one area carries SKIP_DEFAULTS */
+        for (int backing = 0; backing < 2; ++backing)
+            for (int rl = 0; rl < 2; ++rl) {
+                memset(&s, 0, sizeof s);
+                s.be = rl;
+                fam_areas(&s, lb, RW3, backing);
+                s.a[0].flags = XFLAGS[c & 3];
+                s.a[1].flags = XFLAGS[c >> 2];
+                for (int i = 0; i < 2; ++i) {
+                    s.r[s.nr].type = rl ? REG_TYPE_SINT32 : REG_TYPE_UINT32;
+                    s.r[s.nr].addr = lb->base[i] + (rl ? 1 : 0);
+                    x_constrain(&s.r[s.nr], rl ? K_RANGE : K_MAX);
+                    s.nr++;
+                }
+                fn(&s, idx++);
+            }
+    }
+    return idx;
+}
+
+/* ---- H: histories ------------------------------------------------------------------- */
+enum hkind {
+    H_NONE,
+    H_SANITISE,           /* sanitise on the image as it is */
+    H_CORRUPT_SANITISE,   /* register reg set out of band to a content that violates it, then sanitise */
+    H_SET_REFUSED,        /* typed set of a violating / wrongly typed value */
+    H_SET_ACCEPTED,       /* typed set of the register's second valid content */
+    H_BW_HOLE,            /* block write of one word to the unmapped address below the first area */
+    H_BW_BADREG,          /* block write of a violating value over the whole of register reg */
+    H_BW_GOODREG,         /* block write of the register's second valid content over the whole of register reg */
+    H_BIT_REFUSED,        /* bit_set with a wrongly typed operand */
+    H_BIT_NOP,            /* bit_clear of no bits */
+    H_REINIT,             /* register_init once more */
+    H_READS,              /* block read across the whole window (hits the hole), register_get of a handle behind the last */
+    H_SAN_RFAULT,         /* sanitise, read callback #pos answers IO_ERROR */
+    H_CORRUPT_SAN_WFAULT, /* corrupt register reg, sanitise, write callback #pos answers IO_ERROR */
+    H_BW_RFAULT,          /* block write of the current content over the first run of adjacent areas, read callback #pos fails */
+    H_BW_WFAULT,          /* same, write callback #pos fails */
+    H_SET_WFAULT,         /* typed set of register reg's default, write callback #0 fails */
+};
+struct hist {
+    int k, reg, pos;
+};
+#define MAXHIST 48
+
+static const char *
+hist_str(const struct hist *h)
+{
+    static char b[100];
+    switch (h->k) {
+    case H_NONE: snprintf(b, sizeof b, "none"); break;
+    case H_SANITISE: snprintf(b, sizeof b, "sanitise"); break;
+    case H_CORRUPT_SANITISE: snprintf(b, sizeof b, "corrupt(reg%d)+sanitise", h->reg); break;
+    case H_SET_REFUSED: snprintf(b, sizeof b, "set-bad(reg%d)", h->reg); break;
+    case H_SET_ACCEPTED: snprintf(b, sizeof b, "set-good(reg%d)", h->reg); break;
+    case H_BW_HOLE: snprintf(b, sizeof b, "block-write-to-hole"); break;
+    case H_BW_BADREG: snprintf(b, sizeof b, "block-write-bad(reg%d)", h->reg); break;
+    case H_BW_GOODREG: snprintf(b, sizeof b, "block-write-good(reg%d)", h->reg); break;
+    case H_BIT_REFUSED: snprintf(b, sizeof b, "bit-set-wrong-type(reg%d)", h->reg); break;
+    case H_BIT_NOP: snprintf(b, sizeof b, "bit-clear-nothing(reg%d)", h->reg); break;
+    case H_REINIT: snprintf(b, sizeof b, "re-init"); break;
+    case H_READS: snprintf(b, sizeof b, "block-read-over-hole+get-bad-handle"); break;
+    case H_SAN_RFAULT: snprintf(b, sizeof b, "sanitise/read#%d-fails", h->pos); break;
+    case H_CORRUPT_SAN_WFAULT: snprintf(b, sizeof b, "corrupt(reg%d)+sanitise/write#%d-fails", h->reg, h->pos); break;
+    case H_BW_RFAULT: snprintf(b, sizeof b, "block-write-current/read#%d-fails", h->pos); break;
+    case H_BW_WFAULT: snprintf(b, sizeof b, "block-write-current/write#%d-fails", h->pos); break;
+    case H_SET_WFAULT: snprintf(b, sizeof b, "set-default(reg%d)/write#0-fails", h->reg); break;
+    }
+    return b;
+}
+
+/* a raw pattern that register r must not hold (false: every pattern is fine) */
+static bool
+bad_bits(const struct rspec *r, uint64_t *out)
+{
+    const RegisterType t = r->type;
+    const unsigned w = ref_words(t) * 16;
+    const uint64_t m = w == 64 ? ~0ull : ((1ull << w) - 1);
+    switch (r->ckind) {
+    case K_NONE:
+        if (t == REG_TYPE_FLOAT32) { *out = 0x7fc00000u; return true; }
+        if (t == REG_TYPE_FLOAT64) { *out = 0x7ff8000000000000ull; return true; }
+        return false;
+    case K_FAIL: *out = (ref_bits(t, r->def) ^ 2) & m; return true;
+    case K_MIN: case K_RANGE:
+        if (t == REG_TYPE_FLOAT32) *out = f32bits(nextafterf(r->lo.f32, -INFINITY));
+        else if (t == REG_TYPE_FLOAT64) *out = f64bits(nextafter(r->lo.f64, -INFINITY));
+        else *out = (ref_bits(t, r->lo) - 1) & m;
+        return true;
+    case K_MAX:
+        if (t == REG_TYPE_FLOAT32) *out = f32bits(nextafterf(r->hi.f32, INFINITY));
+        else if (t == REG_TYPE_FLOAT64) *out = f64bits(nextafter(r->hi.f64, INFINITY));
+        else *out = (ref_bits(t, r->hi) + 1) & m;
+        return true;
+    case K_CB:
+        if (t == REG_TYPE_FLOAT32) *out = f32bits(-1.5f);
+        else if (t == REG_TYPE_FLOAT64) *out = f64bits(-1.5);
+        else *out = (ref_bits(t, r->def) | 1) & m;
+        return true;
+    default: return false;
+    }
+}
+
+static int
+build_hists(const struct tspec *s, struct hist *h, bool all_regs)
+{
+    int n = 0;
+    bool anycb = false;
+    for (int i = 0; i < s->na; ++i)
+        anycb |= s->a[i].cb;
+    h[n++] = (struct hist){ H_SANITISE, 0, 0 };
+    h[n++] = (struct hist){ H_BW_HOLE, 0, 0 };
+    h[n++] = (struct hist){ H_REINIT, 0, 0 };
+    h[n++] = (struct hist){ H_READS, 0, 0 };
+    for (int r = 0; r < s->nr; ++r) {
+        if (!all_regs && r != 0 && r != s->nr - 1)
+            continue;
+        h[n++] = (struct hist){ H_CORRUPT_SANITISE, r, 0 };
+        h[n++] = (struct hist){ H_SET_REFUSED, r, 0 };
+        h[n++] = (struct hist){ H_BW_BADREG, r, 0 };
+        h[n++] = (struct hist){ H_BW_GOODREG, r, 0 };
+        if (r == 0) {
+            h[n++] = (struct hist){ H_SET_ACCEPTED, r, 0 };
+            h[n++] = (struct hist){ H_BIT_REFUSED, r, 0 };
+            h[n++] = (struct hist){ H_BIT_NOP, r, 0 };
+        }
+    }
+    if (anycb) {
+        for (int pos = 0; pos < s->nr && pos < 3; ++pos)
+            h[n++] = (struct hist){ H_SAN_RFAULT, 0, pos };
+        for (int r = 0; r < s->nr; ++r) {
+            if (!all_regs && r != 0 && r != s->nr - 1)
+                continue;
+            h[n++] = (struct hist){ H_CORRUPT_SAN_WFAULT, r, 0 };
+        }
+        if (s->nr > 0)
+            h[n++] = (struct hist){ H_SET_WFAULT, 0, 0 };
+        h[n++] = (struct hist){ H_BW_RFAULT, 0, 0 };
+        h[n++] = (struct hist){ H_BW_WFAULT, 0, 0 };
+        if (s->na > 1)
+            h[n++] = (struct hist){ H_BW_WFAULT, 0, 1 };
+    }
+    if (n > MAXHIST)
+        mc_broken("history list overflow");
+    return n;
+}
+
+/* image of the table object right after register_init */
+static RegisterTable obj_t;
+static RegisterArea obj_areas[RT_MAXA + 1];
+static RegisterEntry obj_entries[RT_MAXR + 1];
+
+static void
+obj_save(void)
+{
+    obj_t = tb.t;
+    memcpy(obj_areas, tb.areas, (size_t)(tb.s.na + 1) * sizeof(RegisterArea));
+    memcpy(obj_entries, tb.entries, (size_t)(tb.s.nr + 1) * sizeof(RegisterEntry));
+}
+
+static void
+obj_restore(void)
+{
+    tb.t = obj_t;
+    memcpy(tb.areas, obj_areas, (size_t)(tb.s.na + 1) * sizeof(RegisterArea));
+    memcpy(tb.entries, obj_entries, (size_t)(tb.s.nr + 1) * sizeof(RegisterEntry));
+    tb.cb_fail_read_at = tb.cb_fail_write_at = -1;
+    tb.cb_oob = 0;
+}
+
+/* the image under test */
+static uint64_t g_C[RT_MAXR][3];
+static int g_nc[RT_MAXR], g_sel[RT_MAXR];
+static RegisterAtom g_words0[RT_MAXW]; /* storage right after initialisation (callback areas that initialisation does not fill: zero) */
+
+static void
+poke_reg(int r, uint64_t bits)
+{
+    const struct tspec *s = &tb.s;
+    unsigned char img[8];
+    ref_image(s->r[r].type, bits, s->be, img);
+    const int ai = flat_area_of(s, s->r[r].addr);
+    memcpy(tb.store[ai] + (s->r[r].addr - s->a[ai].base), img, ref_words(s->r[r].type) * 2);
+}
+
+static void
+establish_image(void)
+{
+    for (int r = 0; r < tb.s.nr; ++r)
+        poke_reg(r, g_C[r][g_sel[r]]);
+}
+
+enum { HC_OK, HC_REFUSED, HC_FAULT_REACHED, HC_FAULT_NOT_REACHED };
+
+static int
+run_hist(const struct hist *h)
+{
+    const struct tspec *s = &tb.s;
+    RegisterAccess a = REG_ACCESS_RESULT_INIT;
+    RegisterValue v;
+    uint64_t bits = 0;
+    bool fault = false;
+    memset(&v, 0, sizeof v);
+    tb.cb_reads = tb.cb_writes = 0;
+    switch (h->k) {
+    case H_NONE:
+        break;
+    case H_SANITISE:
+        a = register_sanitise(&tb.t);
+        break;
+    case H_CORRUPT_SANITISE:
+        if (bad_bits(&s->r[h->reg], &bits))
+            poke_reg(h->reg, bits);
+        a = register_sanitise(&tb.t);
+        break;
+    case H_SET_REFUSED:
+        if (bad_bits(&s->r[h->reg], &bits)) {
+            v.type = s->r[h->reg].type;
+            v.value = ref_from_bits(v.type, bits);
+        } else {
+            /* unconstrained integer: a wrongly typed operand */
+            v.type = s->r[h->reg].type == REG_TYPE_UINT16 ? REG_TYPE_SINT16 : REG_TYPE_UINT16;
+            v.value = vu_int(v.type, 1);
+        }
+        a = register_set(&tb.t, (RegisterHandle)h->reg, v);
+        break;
+    case H_SET_ACCEPTED:
+        v.type = s->r[h->reg].type;
+        v.value = ref_from_bits(v.type, g_C[h->reg][g_nc[h->reg] - 1]);
+        a = register_set(&tb.t, (RegisterHandle)h->reg, v);
+        break;
+    case H_BW_HOLE: {
+        RegisterAtom *buf = mc_exact(sizeof(RegisterAtom));
+        buf[0] = 0x0001;
+        a = register_block_write(&tb.t, fam_origin(s), 1, buf);
+        free(buf);
+        break;
+    }
+    case H_BW_BADREG:
+    case H_BW_GOODREG: {
+        const unsigned rw = ref_words(s->r[h->reg].type);
+        unsigned char img[8];
+        if (h->k == H_BW_GOODREG)
+            bits = g_C[h->reg][g_nc[h->reg] - 1];
+        else if (!bad_bits(&s->r[h->reg], &bits))
+            bits = 0x5a5a;
+        ref_image(s->r[h->reg].type, bits, s->be, img);
+        RegisterAtom *buf = mc_exact_copy(img, rw * sizeof(RegisterAtom));
+        a = register_block_write(&tb.t, s->r[h->reg].addr, rw, buf);
+        free(buf);
+        break;
+    }
+    case H_BIT_REFUSED:
+        v.type = s->r[h->reg].type == REG_TYPE_UINT16 ? REG_TYPE_UINT32 : REG_TYPE_UINT16;
+        v.value = vu_int(v.type, 1);
+        a = register_bit_set(&tb.t, (RegisterHandle)h->reg, v);
+        break;
+    case H_BIT_NOP:
+        v.type = s->r[h->reg].type;
+        a = register_bit_clear(&tb.t, (RegisterHandle)h->reg, v);
+        break;
+    case H_REINIT: {
+        RegisterInit ri = register_init(&tb.t);
+        if (ri.code != REG_INIT_SUCCESS)
+            a.code = REG_ACCESS_FAILURE;
+        break;
+    }
+    case H_READS: {
+        RegisterAtom *buf = mc_exact((FAM_MAXADDR + 1) * sizeof(RegisterAtom));
+        a = register_block_read(&tb.t, fam_origin(s), FAM_MAXADDR + 1, buf);
+        free(buf);
+        RegisterAccess b = register_get(&tb.t, (RegisterHandle)s->nr, &v);
+        if (a.code == REG_ACCESS_SUCCESS)
+            a = b;
+        break;
+    }
+    case H_SAN_RFAULT:
+        fault = true;
+        tb.cb_fail_read_at = h->pos;
+        a = register_sanitise(&tb.t);
+        break;
+    case H_CORRUPT_SAN_WFAULT:
+        fault = true;
+        if (bad_bits(&s->r[h->reg], &bits))
+            poke_reg(h->reg, bits);
+        tb.cb_fail_write_at = h->pos;
+        a = register_sanitise(&tb.t);
+        break;
+    case H_SET_WFAULT:
+        fault = true;
+        v.type = s->r[h->reg].type;
+        v.value = s->r[h->reg].def;
+        tb.cb_fail_write_at = 0;
+        a = register_set(&tb.t, (RegisterHandle)h->reg, v);
+        break;
+    case H_BW_RFAULT:
+    case H_BW_WFAULT: {
+        /* current content over the first run of adjacent areas */
+        RegisterAtom w[RT_MAXW];
+        uint32_t n = 0;
+        for (int i = 0; i < s->na; ++i) {
+            if (i > 0 && s->a[i].base != s->a[i - 1].base + s->a[i - 1].size)
+                break;
+            memcpy(w + n, tb.store[i], s->a[i].size * sizeof(RegisterAtom));
+            n += s->a[i].size;
+        }
+        RegisterAtom *buf = mc_exact_copy(w, n * sizeof(RegisterAtom));
+        fault = true;
+        if (h->k == H_BW_RFAULT)
+            tb.cb_fail_read_at = h->pos;
+        else
+            tb.cb_fail_write_at = h->pos;
+        a = register_block_write(&tb.t, s->a[0].base, n, buf);
+        free(buf);
+        break;
+    }
+    }
+    const bool hit = (tb.cb_fail_read_at >= 0 && tb.cb_reads > tb.cb_fail_read_at)
+        || (tb.cb_fail_write_at >= 0 && tb.cb_writes > tb.cb_fail_write_at);
+    tb.cb_fail_read_at = tb.cb_fail_write_at = -1;
+    mc_trans(1);
+    if (mc.verbose && mc.active)
+        mc_log("earlier operation %s -> %s@%u%s", hist_str(h), acc(a.code), a.address, fault ? (hit ? " (fault reached)" : " (fault not reached)") : "");
+    if (fault)
+        return hit ? HC_FAULT_REACHED : HC_FAULT_NOT_REACHED;
+    return a.code == REG_ACCESS_SUCCESS ? HC_OK : HC_REFUSED;
+}
+
+static const struct hist *g_hist; /* NULL: no earlier operation (storage and marks are restored between writes) */
+static int g_hclass;
+
+/* puts the table into the state "initialised, image established, earlier
+ * operation done".  Without a history the state is kept up by one_write itself. */
+static void
+prepare(void)
+{
+    if (g_hist == NULL)
+        return;
+    obj_restore();
+    flat_restore(&tb, g_words0);
+    establish_image();
+    g_hclass = run_hist(g_hist);
 }
 
 static long n_accept, n_refuse;
@@ -59,6 +580,7 @@ static bool
 one_write(uint32_t addr, uint32_t n, const RegisterAtom *words, const char *pname)
 {
     RegisterAtom before[RT_MAXW], after[RT_MAXW], expect[RT_MAXW];
+    prepare();
     const size_t total = flat_snapshot(&tb, before);
     RegisterAtom *buf = mc_exact_copy(words, n * sizeof(RegisterAtom));
     struct verdict v;
@@ -74,6 +596,8 @@ one_write(uint32_t addr, uint32_t n, const RegisterAtom *words, const char *pnam
         mc_log("pattern %s addr=%u n=%u -> %s@%u (reference: unmapped=%ld readonly=%ld invalid=%ld range=%ld) touched=%x",
                pname, addr, n, acc(a.code), a.address, v.unmapped, v.readonly, v.invalid, v.range, touched);
         mc_log_hex("request", words, n * 2);
+        if (g_hist != NULL)
+            mc_log_hex("storage-before", before, total * 2);
         mc_log_hex("storage-after", after, total * 2);
     }
     bool ok = true;
@@ -151,12 +675,14 @@ run_window(uint32_t addr, uint32_t n)
     char pname[80];
     bool ok = true;
     n_accept = n_refuse = 0;
+    /* the current content is what the earlier operation (if any) left behind;
+     * that operation is deterministic, so it is the same before every write */
+    prepare();
     for (uint32_t i = 0; i < n; ++i)
         cur[i] = flat_area_of(&tb.s, addr + i) >= 0 ? flat_word(&tb, addr + i) : 0xdead;
     if (n == 0) {
         ok = one_write(addr, 0, cur, "empty");
-        mc_end(true, ok ? "zero-length" : "failed");
-        return;
+        goto done;
     }
     /* P1 */
     for (int si = 0; si < 7 && ok; ++si) {
@@ -168,8 +694,8 @@ run_window(uint32_t addr, uint32_t n)
     /* P0: rewrite the current content */
     if (ok)
         ok = one_write(addr, n, cur, "current");
-    /* P2 */
-    for (uint32_t i = 0; i < n && ok; ++i)
+    /* P2 (without a history only: a history case spends its budget on P0, P1, P3) */
+    for (uint32_t i = 0; i < n && ok && g_hist == NULL; ++i)
         for (int si = 0; si < 7 && ok; ++si) {
             if (cur[i] == SYM[si])
                 continue;
@@ -199,8 +725,30 @@ run_window(uint32_t addr, uint32_t n)
             ok = one_write(addr, n, w, pname);
         }
     }
-    mc_end(true, !ok ? "failed" : n_refuse == 0 ? "all-accepted" : n_accept == 0 ? "all-refused" : "mixed");
+done:
+    if (!ok)
+        mc_end(true, "failed");
+    else if (g_hist != NULL)
+        mc_end(true, g_hclass == HC_OK ? "hist-earlier-op-succeeded" : g_hclass == HC_REFUSED ? "hist-earlier-op-refused"
+               : g_hclass == HC_FAULT_REACHED ? "hist-earlier-op-fault-reached" : "hist-earlier-op-fault-not-reached");
+    else
+        mc_end(true, n == 0 ? "zero-length" : n_refuse == 0 ? "all-accepted" : n_accept == 0 ? "all-refused" : "mixed");
 }
+
+/* quick tier: which tables get the history dimension */
+static bool
+hist_table_quick(const struct tspec *s, bool ext)
+{
+    if (ext)
+        return true;
+    if (s->a[0].base != 1 || s->na > 2)
+        return false; /* shifted tables, three-area layout */
+    if (s->na == 2 && s->a[1].base != s->a[0].base + s->a[0].size)
+        return false; /* layout with a gap */
+    return s->nr <= 2;
+}
+
+static bool g_ext; /* the table being run belongs to the extended family */
 
 static void
 run_table(const struct tspec *s, int ti)
@@ -208,70 +756,88 @@ run_table(const struct tspec *s, int ti)
     tb_built = false;
     /* images: product of the registers' valid contents (<= 2 registers), or
      * one register varied at a time (longer lists) */
-    uint64_t C[RT_MAXR][3];
-    int nc[RT_MAXR];
     int nimg = 1;
     for (int r = 0; r < s->nr; ++r)
-        nc[r] = fam_contents(&s->r[r], C[r]);
+        g_nc[r] = x_contents(&s->r[r], g_C[r]);
     if (s->nr <= 2)
         for (int r = 0; r < s->nr; ++r)
-            nimg *= nc[r];
+            nimg *= g_nc[r];
     else
         for (int r = 0; r < s->nr; ++r)
-            nimg += nc[r] - 1;
+            nimg += g_nc[r] - 1;
+    struct hist H[MAXHIST];
+    int nh = 0;
+    if (g_thorough || hist_table_quick(s, g_ext))
+        nh = build_hists(s, H, g_thorough);
     for (int im = 0; im < nimg; ++im) {
-        int sel[RT_MAXR] = { 0 };
+        memset(g_sel, 0, sizeof g_sel);
         if (s->nr <= 2) {
             int x = im;
             for (int r = 0; r < s->nr; ++r) {
-                sel[r] = x % nc[r];
-                x /= nc[r];
+                g_sel[r] = x % g_nc[r];
+                x /= g_nc[r];
             }
         } else if (im > 0) {
             int x = im - 1;
             for (int r = 0; r < s->nr; ++r) {
-                if (x < nc[r] - 1) {
-                    sel[r] = x + 1;
+                if (x < g_nc[r] - 1) {
+                    g_sel[r] = x + 1;
                     break;
                 }
-                x -= nc[r] - 1;
+                x -= g_nc[r] - 1;
             }
         }
-        for (uint32_t rel = 0; rel <= FAM_MAXADDR; ++rel)
-            for (uint32_t n = 0; rel + n <= FAM_MAXADDR + 1; ++n) {
-                const uint32_t addr = fam_origin(s) + rel;
-                if (!g_thorough && n > 6 && (rel + n) != FAM_MAXADDR + 1 && rel != 0)
-                    continue; /* quick: long windows only when they touch an end */
-                if (!mc_case("table#%d %s image=%d window=(%u,%u)", ti, tspec_str(s), im, addr, n))
-                    continue;
-                if (!tb_built) {
-                    tab_build(&tb, s);
-                    RegisterInit ri = register_init(&tb.t);
-                    tb_built = true;
-                    if (ri.code != REG_INIT_SUCCESS) {
-                        mc_fail("C02/setup-init", "register_init of a well-formed table failed with code %d at %u", ri.code, ri.pos.entry);
+        /* history index -1: none.  Quick: histories from the first and the last image only */
+        const int nh_im = (g_thorough || im == 0 || im == nimg - 1) ? nh : 0;
+        for (int hi = -1; hi < nh_im; ++hi)
+            for (uint32_t rel = 0; rel <= FAM_MAXADDR; ++rel)
+                for (uint32_t n = 0; rel + n <= FAM_MAXADDR + 1; ++n) {
+                    const uint32_t addr = fam_origin(s) + rel;
+                    if (!g_thorough && n > 6 && (rel + n) != FAM_MAXADDR + 1 && rel != 0)
+                        continue; /* quick: long windows only when they touch an end */
+                    if (hi >= 0 && !g_thorough && n > 4 && (rel + n) != FAM_MAXADDR + 1 && rel != 0)
+                        continue; /* quick, with a history: windows up to four words and those touching an end */
+                    if (!mc_would_run()) {
+                        mc_skip_case(); /* descriptor not formatted for cases of other shards */
+                        continue;
+                    }
+                    if (hi < 0) {
+                        if (!mc_case("table#%d %s image=%d window=(%u,%u)", ti, tspec_str(s), im, addr, n))
+                            continue;
+                    } else {
+                        if (!mc_case("table#%d %s image=%d after=%s window=(%u,%u)", ti, tspec_str(s), im, hist_str(&H[hi]), addr, n))
+                            continue;
+                    }
+                    if (!tb_built) {
+                        tab_build(&tb, s);
+                        RegisterInit ri = register_init(&tb.t);
+                        tb_built = true;
+                        /* callback-backed areas are not cleared by init */
+                        for (int i = 0; i < s->na; ++i)
+                            if (s->a[i].cb && (s->a[i].nowrite || (s->a[i].flags & REG_AF_SKIP_DEFAULTS)))
+                                memset(tb.store[i], 0, s->a[i].size * sizeof(RegisterAtom));
+                        obj_save();
+                        memset(g_words0, 0, sizeof g_words0);
+                        flat_snapshot(&tb, g_words0);
+                        if (ri.code != REG_INIT_SUCCESS) {
+                            mc_fail("C02/setup-init", "register_init of a well-formed table failed with code %d at %u", ri.code, ri.pos.entry);
+                            mc_end(false, "init-failed");
+                            continue;
+                        }
+                    }
+                    if (!(obj_t.flags & REG_TF_INITIALISED)) {
+                        mc_fail("C02/setup-init", "table not initialised");
                         mc_end(false, "init-failed");
                         continue;
                     }
-                    /* callback-backed areas are not cleared by init */
-                    for (int i = 0; i < s->na; ++i)
-                        if (s->a[i].cb && (s->a[i].nowrite || (s->a[i].flags & REG_AF_SKIP_DEFAULTS)))
-                            memset(tb.store[i], 0, s->a[i].size * sizeof(RegisterAtom));
+                    g_hist = hi < 0 ? NULL : &H[hi];
+                    /* a case starts from the table object as initialisation left it */
+                    obj_restore();
+                    flat_restore(&tb, g_words0);
+                    /* establish the image out of band: every register at a valid content */
+                    establish_image();
+                    run_window(addr, n);
                 }
-                if (!(tb.t.flags & REG_TF_INITIALISED)) {
-                    mc_fail("C02/setup-init", "table not initialised");
-                    mc_end(false, "init-failed");
-                    continue;
-                }
-                /* establish the image out of band: every register at a valid content */
-                for (int r = 0; r < s->nr; ++r) {
-                    unsigned char img[8];
-                    ref_image(s->r[r].type, C[r][sel[r]], s->be, img);
-                    const int ai = flat_area_of(s, s->r[r].addr);
-                    memcpy(tb.store[ai] + (s->r[r].addr - s->a[ai].base), img, ref_words(s->r[r].type) * 2);
-                }
-                run_window(addr, n);
-            }
     }
     if (tb_built)
         tab_free(&tb);
@@ -282,10 +848,14 @@ main(int argc, char **argv)
 {
     mc_init(argc, argv);
     g_thorough = mc_thorough();
-    const int ntab = fam_enumerate(run_table, g_thorough);
-    char bound[200];
-    snprintf(bound, sizeof bound, "%d tables of the family x valid images x windows over addresses 0..%d x patterns P0..P3%s",
-             ntab, FAM_MAXADDR, g_thorough ? "" : " (quick: adjacent pairs only, long interior windows skipped)");
+    g_ext = false;
+    const int nfam = fam_enumerate(run_table, g_thorough);
+    g_ext = true;
+    const int ntab = xfam_enumerate(run_table, nfam);
+    char bound[900];
+    snprintf(bound, sizeof bound, "%d tables of the family + %d of the extended family (s32/s64/f64 singles and pairs, SKIP_DEFAULTS areas) x valid images x {no earlier operation, each earlier operation of the per-table history alphabet incl. one-fault environment operations} x windows over addresses 0..%d x patterns P0..P3 (P2 only without an earlier operation)%s",
+             nfam, ntab - nfam, FAM_MAXADDR,
+             g_thorough ? "" : " (quick: adjacent pairs only, long interior windows skipped; histories on the extended family and on the one-/two-register tables of the gap-free layouts, first and last image, windows <= 4 words or touching an end, first/last register)");
     mc_finish(true, bound);
     return 0;
 }
